@@ -19,7 +19,7 @@ enum class Flag
 
 struct TTEntry
 {
-    TTEntry() {}
+    TTEntry() : score(0), depth(0), flag(Flag::kEXACT), move(NO_MOVE) {}
     TTEntry(int64_t score, int32_t depth, Flag flag, Move move)
         : score(score), depth(depth), flag(flag), move(move)
     {
